@@ -1108,6 +1108,16 @@ let rec filter f = function
 | [] -> []
 | x :: l0 -> if f x then x :: (filter f l0) else filter f l0
 
+(** val combine : 'a1 list -> 'a2 list -> ('a1 * 'a2) list **)
+
+let rec combine l l' =
+  match l with
+  | [] -> []
+  | x :: tl ->
+    (match l' with
+     | [] -> []
+     | y :: tl' -> (x, y) :: (combine tl tl'))
+
 (** val firstn : nat -> 'a1 list -> 'a1 list **)
 
 let rec firstn n0 l =
@@ -5162,6 +5172,33 @@ let abs_disk name_max maxfilesize sz quiescent d =
 let empty_disk =
   empty0 (gmap_empty n_eq_dec n_countable)
 
+type 'entry slot = 'entry option
+
+type 'entry dir = 'entry slot list
+
+(** val scan :
+    ('a1 -> n) -> 'a1 dir -> nat -> n -> n -> ((nat * 'a1) list * bool) * nat **)
+
+let rec scan cost l base n0 count =
+  match l with
+  | [] -> (([], true), base)
+  | s :: r ->
+    (match s with
+     | Some e ->
+       let n' = N.add n0 (cost e) in
+       if N.leb count n'
+       then ((((base, e) :: []), false), (S base))
+       else let (p, nx) = scan cost r (S base) n' count in
+            let (es, eof) = p in ((((base, e) :: es), eof), nx)
+     | None -> scan cost r (S base) n0 count)
+
+(** val page :
+    ('a1 -> n) -> 'a1 dir -> nat -> n -> ((nat * 'a1) list * bool) * nat **)
+
+let page cost d cookie count =
+  scan cost (skipn cookie d) cookie (Npos (XO (XO (XO (XO (XO (XO XH)))))))
+    count
+
 type oattrs = { oa_ftype : n; oa_size : n; oa_fileid : n; oa_atime : 
                 (n * n); oa_mtime : (n * n); oa_nlink : n }
 
@@ -5535,6 +5572,52 @@ let name_cache_ok sz d i ents =
       (forallb (fun e -> existsb (triple_eqb e) want) ents))
     (forallb (fun e -> existsb (triple_eqb e) ents) want)
 
+(** val enum_names : afs -> inum -> name list **)
+
+let enum_names s di =
+  match lookup0 (gmap_lookup n_eq_dec n_countable) di s.objs with
+  | Some d ->
+    dot :: (dotdot :: (map fst
+                        (map_to_list
+                          (gmap_to_list (list_eq_dec0 byte_eq_dec0)
+                            (list_countable byte_eq_dec0 byte_countable))
+                          d.o_ents)))
+  | None -> []
+
+(** val dir_slots_of : n -> disk -> n -> (name * n) option list **)
+
+let dir_slots_of sz d i =
+  let l = mk_layout sz in
+  let ip = read_inode l d i in
+  let (leaves, _) = inode_blocks d ip in
+  dir_slots d (leaf_map leaves) ip.i_size
+
+(** val readdir_cost : (name * n) -> n **)
+
+let readdir_cost e =
+  N.add (lenN0 (fst e)) (Npos (XO (XO (XO (XO (XO XH))))))
+
+(** val model_page :
+    (name * n) option list -> n -> n -> ((nat * (name * n)) list * bool) * nat **)
+
+let model_page slots cookie count =
+  page readdir_cost slots (N.to_nat (N.div cookie dIRENTSZ)) count
+
+(** val readdir_matches_model :
+    n -> disk -> n -> n -> n -> odirent list -> bool -> bool **)
+
+let readdir_matches_model sz d i cookie count ents eof =
+  let (p, _) = model_page (dir_slots_of sz d i) cookie count in
+  let (es, meof) = p in
+  (&&) ((&&) (eqb eof meof) (Nat.eqb (length ents) (length es)))
+    (forallb (fun p0 ->
+      let (e, y) = p0 in
+      let (idx, y0) = y in
+      let (nm, inum0) = y0 in
+      (&&) ((&&) (bytes_eqb e.de_name nm) (N.eqb e.de_fileid inum0))
+        (N.eqb e.de_cookie (N.mul (N.add (N.of_nat idx) (Npos XH)) dIRENTSZ)))
+      (combine ents es))
+
 (** val lOGSZ : n **)
 
 let lOGSZ =
@@ -5594,9 +5677,9 @@ let recover_log d =
   then None
   else Some
          (fold_left (fun acc pos ->
-           let slot = N.modulo pos lOGSZ in
-           disk_set acc (nth (N.to_nat slot) h.lh_addrs N0)
-             (rd d (N.add lOGSTART slot)))
+           let slot0 = N.modulo pos lOGSZ in
+           disk_set acc (nth (N.to_nat slot0) h.lh_addrs N0)
+             (rd d (N.add lOGSTART slot0)))
            (positions (N.to_nat (N.sub h.lh_end h.lh_start)) h.lh_start) d)
 
 (** val fs_part : disk -> (n * bytes) list **)
